@@ -34,7 +34,7 @@ TestMsg(ty, dst, ser, rs, fl) ==
 
 MCNext ==
   \E s \in Slot :
-    \/ \E u \in Uids : Connect(s, u)
+    \/ \E u \in Uids : Connect(s, u, FALSE)
     \/ Cardinality(everNames) < MaxUnique /\ Hello(s, 1, 0, NextUnique)
     \/ cst[s] = "active" /\ Hello(s, 1, 0, <<>>)
     \/ "names" \in Ops /\ \E n \in Names, f \in FlagSet : RequestName(s, 1, 0, n, f)
@@ -44,13 +44,13 @@ MCNext ==
     \/ "match" \in Ops /\ \E t \in RuleTexts : AddMatch(s, 1, 0, t) \/ RemoveMatch(s, 1, 0, t)
     \/ "send" \in Ops /\ \E ty \in SendTy, d \in Names \cup {<<>>} \cup {uname[x] : x \in Slot}, ser \in SendSer, rs \in SendRs, fl \in SendFl :
            /\ (d # <<>> \/ ty = 4)
-           /\ Send(s, TestMsg(ty, d, ser, IF ty \in {2,3} THEN rs ELSE 0, fl))
+           /\ Send(s, TestMsg(ty, d, ser, IF ty \in {2,3} THEN rs ELSE 0, fl), <<>>)
     \/ "close" \in Ops /\ ClientClose(s)
     \/ \E order \in [1..Cardinality(NamesOf(queue, s)) -> NamesOf(queue, s)] : Drop(s, order)
     \/ "send" \in Ops /\ \E i \in 1..Len(pend) : ExpirePending(i)
 
 MCSpec == MCInit /\ [][MCNext]_vars
-View == <<cfg, cst, dying, uid, uname, everNames, queue, rules, pend, mon>>
+View == <<cfg, cst, dying, uid, uname, everNames, queue, rules, pend, mon, fdx>>
 
 \* ------------------------------------------------------------------ invariants
 TypeOK ==
